@@ -11,3 +11,12 @@ import "github.com/lindb/lindb/series/metric"
 func VerifSetSeriesSequence(db MetricIndexDatabase, metricID metric.ID, last uint32) {
 	db.(*metricIndexDatabase).sequenceCache.Add(metricID, last)
 }
+
+// VerifFlushing reports whether the database is between PrepareFlush and the end of Flush (its forward index holds
+// an immutable store): the simulator places writes of new series and statements into that window.
+func VerifFlushing(db MetricIndexDatabase) bool {
+	idb := db.(*metricIndexDatabase)
+	idb.forward.lock.RLock()
+	defer idb.forward.lock.RUnlock()
+	return idb.forward.immutable != nil
+}
